@@ -161,6 +161,16 @@ INFO = {
  'C19-m9': ("parameter and result type lists memoised on the per-Call config, shared by all options", 'two options of one kind in one Call (defaults first, then overrides): the in-place edits of the first corrupt the second'),
  'C19-m10': ("the nil-kind switch extracted into a helper that omits UnsafePointer", 'an untyped nil for an unsafe.Pointer parameter: spurious not-assignable error'),
  'C20-m9': ("the Done case falls through to the guard, behind a skip-when-buffer-full pre-check", 'a standard context cancelled while a value is still buffered and nobody receives: the producer spins for ever, the channel is never closed'),
+ 'C02-m11': ("package Range detects an aborted callback with recover() instead of a success flag", 'a callback that calls runtime.Goexit (t.FailNow and friends): neither committed nor rolled back, the next read skips the value and its commit makes the skipped one permanent'),
+ 'C03-m11': ("Buffer.Diff clamps the consumer's relative position to the start of the buffer", 'a consumer behind a forced trim: Diff equals Size instead of values put minus read position'),
+ 'C10-m11': ("wrappers are applied lazily by the runner, from the runner's own config", 'calls with different wrappers coalesced into one execution whose runner is not the last registrant: the executed function is one call\'s wrappers around another call\'s work'),
+ 'C14-m11': ("the count check in Workers.check accepts zero", 'Call(0, f) on a pool in use with nothing following: target becomes 0, every worker retires with the queue non-empty, queued calls starve and Wait returns'),
+ 'C15-m11': ("a fast path of plain serial sends when no context is involved", 'two or more context-less subscriptions whose targets become ready only one after the other (one goroutine receiving in turn): Publish blocks on the first target in map order'),
+ 'C16-m11': ("CombineContext returns the already-cancelled other itself when the primary is nil", 'nil primary plus an other that is already cancelled and carries values: the result exposes that other\'s values'),
+ 'C18-m11': ("a plain error that is or wraps context.Canceled/DeadlineExceeded ends the loop with ctx.Err()", 'an operation with its own per-attempt context failing with a context error while the retry\'s context is live: returns (nil, nil) after one call'),
+ 'C18-m12': ("the delay is computed in floating point behind a saturation guard", 'a rate that is not a round number of nanoseconds and a high retry count (slots x rate above 2^53 ns): the delay is no longer a whole number of slots'),
+ 'C19-m11': ("a recover in callable.Call that turns reflect-looking panics into errors also covers the called function", 'a function that itself panics inside reflect (or with a string starting with reflect): its panic is swallowed and an error returned although it was invoked'),
+ 'C19-m12': ("CallResults unwraps interface results and skips nil ones", 'a target that already holds a non-nil interface value and a call that returns nil for it: the stale value stays'),
 
 }
 
